@@ -35,4 +35,13 @@ REGEX_RULES = {
             r".map(|x: &Name| -> (c: Cow<'_, Name>) ensures c == Cow::<'_, Name>::Borrowed(x) { Cow::Borrowed(x) })",
             'ZN5: `.map(Cow::Borrowed)` -> eta-expanded annotated closure (Verus does not accept a '
             'datatype constructor as a function value; same as R10 plus a checked `ensures`)'),
+    'ZN6': (r"Box<\s*dyn\s+RrsetIterator<'a>\s*\+\s*'a\s*>", "RrsetIterBox<'a>",
+            "ZN6 (item LookupAllResult): `Box<dyn RrsetIterator<'a> + 'a>` -> prelude stand-in type `RrsetIterBox<'a>` "
+            '(Verus rejects `dyn` of a trait with Iterator + Debug supertraits); the stand-in is opaque and only '
+            'exposes, as a ghost view, the sequence of RRsets the boxed iterator will yield'),
+    'ZN7': (r'Box::new\(\s*data\.rrsets\.iter\(\)\.map\(\s*IteratedRrset::from\s*\)\s*\)', 'zn_boxed_rrsets(&data.rrsets)',
+            'ZN7 (lookup_all only): `Box::new(data.rrsets.iter().map(IteratedRrset::from))` -> prelude fn '
+            '`zn_boxed_rrsets(&data.rrsets)`: iterator adaptors and the unsizing to `dyn` are outside Verus; the '
+            'stand-in states what `slice::Iter` + `Iterator::map` are documented to do (yield `IteratedRrset::from` of '
+            'each RRset of the list, in order).  Nothing about the control flow of lookup_all changes.'),
 }
